@@ -155,6 +155,18 @@ CHECKS = {
         "note": "PARTIAL: thread-level ContextVar behaviour and the real interpreter stack limit (modelled by fuel) are not exhibited; axioms: none.",
         "design": "5/C14",
     },
+    "C15": {
+        "text": ("Theorems on a store model (mappings, H objects referring to a mapping - H(h) shares it -, P objects "
+                 "referring to H objects, R objects): no operation, successful or failing, changes what can be observed "
+                 "of an existing object, for every sequence of operations (no side condition on the operations); the "
+                 "store only grows; a failing operation leaves the store unchanged; item assignment is TypeError; an "
+                 "alias and its input stay as they were whatever is done later. Correspondence: random operation "
+                 "sequences over a shared growing population with full snapshots (items with types, totals, dice, "
+                 "roller reprs) of EVERY existing object after EVERY step, incl. queries, evaluations, rolls and failing "
+                 "calls; resolved operations replayed in the model, result ids / exceptions and final observations compared."),
+        "note": "PARTIAL: object identity is modelled by store ids; mutation through private attributes or C extensions cannot be exhibited by the model (only public observations are compared); axioms: none.",
+        "design": "5/C15",
+    },
     "C16": {
         "text": ("Theorems over exact rationals: distribution lists every outcome once in order with (count, total), "
                  "probabilities sum to 1, variance = E[(X-mu)^2], mean/variance invariant under scaling and zero padding "
